@@ -37,10 +37,18 @@ static int ctl_request(Tape &t, vorbis_info *vi, std::string &d, bool *was_set) 
       if (t.chance(1, 6)) { int r = vorbis_encode_ctl(vi, req, nullptr); d += sfmt("RM2_SET(NULL)=%d ", r); return r; }
       ovectl_ratemanage2_arg a; memset(&a, 0, sizeof a); vorbis_encode_ctl(vi, OV_ECTL_RATEMANAGE2_GET, &a);
       static const long kb[] = {0, -1, 1, 8, 32, 64, 128, 500, 100000, 2000000};
+      if (g_tape_gen >= 3 && t.chance(1, 3)) {   // one-field probe: everything else valid, so that no other validation masks the field under test
+        if (t.chance(1, 2)) { a.management_active = 1; if (a.bitrate_average_kbps <= 0) a.bitrate_average_kbps = t.chance(1, 2) ? 64 : 128; }
+        static const long rb[] = {0, 1, 127, 128, 1000, 100000, 2000000000L, -1, 64000}; static const double bi[] = {0, 1, 0.5, -0.01, 1.01, 0.1, (double)NAN};
+        static const double da[] = {0, -1, 1e-9, 0.1, 1.5, 100, 1e30, -0.001, -0.02, -1e-9, (double)NAN, -1e30};
+        switch (t.below(6)) { case 0: a.bitrate_limit_min_kbps = kb[t.below(10)]; break; case 1: a.bitrate_limit_max_kbps = kb[t.below(10)]; break; case 2: a.bitrate_average_kbps = kb[t.below(10)]; break;
+          case 3: a.bitrate_limit_reservoir_bits = rb[t.below(9)]; break; case 4: a.bitrate_limit_reservoir_bias = bi[t.below(7)]; break; default: a.bitrate_average_damping = da[t.below(12)]; break; }
+        int r = vorbis_encode_ctl(vi, req, &a); d += sfmt("RM2_SET(probe){act=%d %ld/%ld/%ld res=%ld bias=%g damp=%g}=%d ", a.management_active, a.bitrate_limit_min_kbps, a.bitrate_average_kbps, a.bitrate_limit_max_kbps, a.bitrate_limit_reservoir_bits, a.bitrate_limit_reservoir_bias, a.bitrate_average_damping, r); return r;
+      }
       if (t.chance(1, 2)) a.management_active = (int)t.below(3) - 0; if (t.chance(1, 2)) a.bitrate_limit_min_kbps = kb[t.below(10)]; if (t.chance(1, 2)) a.bitrate_limit_max_kbps = kb[t.below(10)]; if (t.chance(1, 2)) a.bitrate_average_kbps = kb[t.below(10)];
       if (t.chance(1, 2)) { static const long rb[] = {0, 1, 127, 128, 1000, 100000, 2000000000L, -1, 64000}; a.bitrate_limit_reservoir_bits = rb[t.below(9)]; }
       if (t.chance(1, 2)) { static const double bi[] = {0, 1, 0.5, -0.01, 1.01, 0.1}; a.bitrate_limit_reservoir_bias = bi[t.below(6)]; }
-      if (t.chance(1, 3)) { static const double da[] = {0, -1, 1e-9, 0.1, 1.5, 100, 1e30}; a.bitrate_average_damping = da[t.below(7)]; }
+      if (t.chance(1, 3)) { static const double da[] = {0, -1, 1e-9, 0.1, 1.5, 100, 1e30, -0.001, -0.02, -1e-9, (double)NAN, -1e30}; a.bitrate_average_damping = da[g_tape_gen >= 3 ? t.below(12) : t.below(7)]; }
       int r = vorbis_encode_ctl(vi, req, &a); d += sfmt("RM2_SET{act=%d %ld/%ld/%ld res=%ld bias=%g damp=%g}=%d ", a.management_active, a.bitrate_limit_min_kbps, a.bitrate_average_kbps, a.bitrate_limit_max_kbps, a.bitrate_limit_reservoir_bits, a.bitrate_limit_reservoir_bias, a.bitrate_average_damping, r); return r; }
     case OV_ECTL_LOWPASS_GET: case OV_ECTL_IBLOCK_GET: { double v = -7; int r = vorbis_encode_ctl(vi, req, &v); d += sfmt("%s=%d(%g) ", req == OV_ECTL_LOWPASS_GET ? "LOWPASS_GET" : "IBLOCK_GET", r, v); return r; }
     case OV_ECTL_LOWPASS_SET: case OV_ECTL_IBLOCK_SET: { double v = dv[t.below(16)]; int r = vorbis_encode_ctl(vi, req, &v); d += sfmt("%s(%g)=%d ", req == OV_ECTL_LOWPASS_SET ? "LOWPASS_SET" : "IBLOCK_SET", v, r); return r; }
@@ -119,12 +127,18 @@ bool prop_run(Tape &t, Report &r) {
   { vorbis_info v2; vorbis_comment c2; vorbis_info_init(&v2); vorbis_comment_init(&c2); int bad = 0; for (int i = 0; i < 3 && !bad; i++) bad = vorbis_synthesis_headerin(&v2, &c2, &h[i]); bool same = !bad && v2.channels == channels && v2.rate == rate; vorbis_comment_clear(&c2); vorbis_info_clear(&v2);
     if (bad) return r.fail("the decoder refuses the header triple of a successful set-up (%d) [%s]", bad, d.c_str()); if (!same) return r.fail("decoded headers disagree on channels/rate [%s]", d.c_str()); }
   // encode M samples
-  int msel = t.weighted({2, 2, 2, 3}); int64_t M = msel == 0 ? 0 : msel == 1 ? 1 : msel == 2 ? b1 - 1 : 3 * b1 + 7; if (channels > 32 && M > b1) M = b1 + 3;
+  int msel = g_tape_gen >= 3 ? t.weighted({2, 2, 2, 3, 2}) : t.weighted({2, 2, 2, 3}); int64_t M = msel == 0 ? 0 : msel == 1 ? 1 : msel == 2 ? b1 - 1 : 3 * b1 + 7; if (channels > 32 && M > b1) M = b1 + 3;
+  // "any amount of audio": bitrate management only shows its state (reservoir, average tracker) after a second or so
+  if (msel == 4) { M = channels <= 2 ? std::min<int64_t>((int64_t)(rate * 1.3), 70000) : channels <= 8 ? 12 * (int64_t)b1 : 3 * b1 + 7; r.label("long encode after set-up"); }
+  // a minimum bitrate in the Gbit/s range is accepted and honoured: every packet is padded to hundreds of megabytes.  That is proportional work, not
+  // a defect, but it takes minutes per packet under the sanitizers: such set-ups are not encoded (counted)
+  { ovectl_ratemanage_arg ga; memset(&ga, 0, sizeof ga);   // (RATEMANAGE2_GET is number 0x14 and is refused like a SET once the set-up is fixed; the old GET, 0x10, still answers)
+    if (vorbis_encode_ctl(&vi, OV_ECTL_RATEMANAGE_GET, &ga) == 0 && ga.management_active && ga.bitrate_hard_min > 4000000) { M = -1; r.label("minimum bitrate above 4 Mbit/s: encode skipped"); } }
   Signal sig = Signal::gen(t); d += sfmt(" M=%lld ", (long long)M) + sig.desc(); long packets = 0; int64_t done = 0;
   while (done < M) { int n = (int)std::min<int64_t>(M - done, 1 + t.below(3000)); float **buf = vorbis_analysis_buffer(&vd, n); for (int c = 0; c < channels; c++) sig.fill(c, done, n, buf[c], M); if (vorbis_analysis_wrote(&vd, n)) return r.fail("vorbis_analysis_wrote failed [%s]", d.c_str()); done += n;
     int br; while ((br = vorbis_analysis_blockout(&vd, &vb)) == 1) { if (vorbis_analysis(&vb, NULL)) return r.fail("vorbis_analysis failed [%s]", d.c_str()); if (vorbis_bitrate_addblock(&vb)) return r.fail("vorbis_bitrate_addblock failed [%s]", d.c_str()); ogg_packet op; while (vorbis_bitrate_flushpacket(&vd, &op) == 1) packets++; } if (br < 0) return r.fail("vorbis_analysis_blockout=%d [%s]", br, d.c_str()); }
-  vorbis_analysis_wrote(&vd, 0);
-  { int br; while ((br = vorbis_analysis_blockout(&vd, &vb)) == 1) { if (vorbis_analysis(&vb, NULL)) return r.fail("vorbis_analysis failed [%s]", d.c_str()); if (vorbis_bitrate_addblock(&vb)) return r.fail("vorbis_bitrate_addblock failed [%s]", d.c_str()); ogg_packet op; while (vorbis_bitrate_flushpacket(&vd, &op) == 1) packets++; } if (br < 0) return r.fail("vorbis_analysis_blockout=%d at end of input [%s]", br, d.c_str()); }
+  if (M >= 0) vorbis_analysis_wrote(&vd, 0);
+  if (M >= 0) { int br; while ((br = vorbis_analysis_blockout(&vd, &vb)) == 1) { if (vorbis_analysis(&vb, NULL)) return r.fail("vorbis_analysis failed [%s]", d.c_str()); if (vorbis_bitrate_addblock(&vb)) return r.fail("vorbis_bitrate_addblock failed [%s]", d.c_str()); ogg_packet op; while (vorbis_bitrate_flushpacket(&vd, &op) == 1) packets++; } if (br < 0) return r.fail("vorbis_analysis_blockout=%d at end of input [%s]", br, d.c_str()); }
   r.label("set-up succeeded"); r.label(entry == 0 ? "init_vbr" : entry == 1 ? "init (managed)" : entry == 2 ? "three-step vbr" : "three-step managed");
   if (offgrid) { r.label("successful set-up outside the suite's grid"); r.nontriv(fnv1a(d.data(), d.size())); }
   if (channels > 8) r.label("more than 8 channels");
